@@ -75,7 +75,7 @@ def dmrg_case(ctx, idx, rng):
         ctx.case(('no-state',), nontrivial=False)
         return
     psi.A[0] = psi.A[0] * float(rng.choice([1.0, 0.2, 5.0]))
-    nsweeps = int(rng.integers(1, 5))
+    nsweeps = int(rng.integers(1, 5)) if idx % 16 != 7 else int(rng.choice([10, 16, 17, 33]))      # every 16th case: many sweeps in one call
     numiter = int(rng.choice([2, 3, 5, 25]))
     tol_split = 0.0 if (not two or rng.random() < 0.7) else float(rng.choice([1e-8, 1e-3]))
     mH = refs.dense_operator(H.A)
